@@ -153,6 +153,20 @@ Theorem C01_mask_history_readings : forall (n : zgrid) H W, 0 < H -> rectb H W n
     slim_from m' n = map (get2 0%Z n) (unmasked_spec m').
 Proof. exact mask_history_readings. Qed.
 
+(* ---------------- phase 3: apply_mask -- an object read under its own mask m, re-masked with a second mask m2 ----------------
+   [apply_mask m m2 f] is what `obj.apply_mask(mask2)` builds (`Array2D(values=obj.native, mask=mask2)`) *)
+Theorem C01_reading_after_apply_mask : forall (A : Type) (zero : A) (m m2 : mask) (f : form) H W,
+  rectb H W m = true -> rectb H W m2 = true -> 0 < H -> wfb m H W f = true ->
+  obs_slim zero m2 (apply_mask zero m m2 f) = map (get2 zero (obs_native zero m f)) (native_for_slim m2) /\
+  obs_native zero m2 (apply_mask zero m m2 f) = zero_masked zero m2 (obs_native zero m f) /\
+  wfb m2 H W (apply_mask zero m m2 f) = true.
+Proof. exact @obs_of_apply_mask. Qed.
+Theorem C01_apply_mask_pointwise : forall (A : Type) (zero : A) (m m2 : mask) (f : form) H W p,
+  rectb H W m = true -> rectb H W m2 = true -> 0 < H -> wfb m H W f = true -> fst p < H -> snd p < W ->
+  get2 zero (obs_native zero m2 (apply_mask zero m m2 f)) p =
+  if mget m2 p || mget m p then zero else get2 zero (obs_native zero m f) p.
+Proof. exact @apply_mask_pointwise. Qed.
+
 (* non-vacuity: a 3x4 mask with a hole, an isolated last-column pixel and an outer-ring pixel *)
 Example C01_hyps_satisfiable :
   let m := [[false; true; true; false]; [true; false; true; true]; [true; true; false; false]] in
@@ -177,6 +191,17 @@ Example C01_history_hyps_satisfiable :
     [[(0, 0); (1, 1); (1, 2)]; [(0, 0); (0, 1); (1, 1); (1, 2)]; [(0, 0); (0, 1); (1, 1); (1, 2)]; [(0, 2); (1, 0)]].
 Proof. vm_compute. repeat split. Qed.
 
+(* non-vacuity, phase 3: a natively stored array with garbage at its masked pixels, re-masked with a mask that unmasks
+   one of them (it reads zero, not the garbage) and masks one of its unmasked pixels *)
+Example C01_apply_mask_hyps_satisfiable :
+  let m := [[false; true; true]; [true; false; false]] in
+  let m2 := [[false; false; true]; [true; true; false]] in
+  let f := Native [[1; 50; 60]; [70; 2; 3]]%Z in
+  rectb 2 3 m = true /\ rectb 2 3 m2 = true /\ wfb m 2 3 f = true /\
+  obs_slim 0%Z m2 (apply_mask 0%Z m m2 f) = [1; 0; 3]%Z /\
+  obs_native 0%Z m2 (apply_mask 0%Z m m2 f) = [[1; 0; 0]; [0; 0; 3]]%Z.
+Proof. vm_compute. repeat split. Qed.
+
 Print Assumptions C01_native_for_slim_is_rowmajor_unmasked. Print Assumptions C01_slim_is_rowmajor_gather.
 Print Assumptions C01_native_value_at_kth_unmasked. Print Assumptions C01_native_masked_is_zero.
 Print Assumptions C01_native_has_mask_shape. Print Assumptions C01_slim_native_slim.
@@ -193,3 +218,4 @@ Print Assumptions C01_reading_after_arithmetic. Print Assumptions C01_masked_ass
 Print Assumptions C01_history_readings. Print Assumptions C01_1d_reading_is_one_row.
 Print Assumptions C01_mask_after_edit. Print Assumptions C01_indexes_after_edit.
 Print Assumptions C01_mask_history_readings.
+Print Assumptions C01_reading_after_apply_mask. Print Assumptions C01_apply_mask_pointwise.
